@@ -32,6 +32,8 @@ CONSTANTS N,            \* number of ranges (>= 1)
           MaxFaults, UserMayCancel,
           NeedHead,     \* the size is not provided: HeadObject first
           HasOld,       \* the destination exists before the download (Dest = "path")
+          Single,       \* TRUE: the object is below multipart_threshold (N = 1): one GetObject without
+                        \*   Range whose task writes inline and runs the final task as its done callback
           Dest,         \* "path" (temp file + rename) | "seekable" | "nonseekable" (stream: DeferQueue,
                         \*   GetObject tasks throttled by the sliding window of W in-memory chunks)
           W             \* max_in_memory_download_chunks
@@ -105,7 +107,8 @@ Init ==
     /\ wpc = [w \in Workers |-> "idle"] /\ wcur = [w \in Workers |-> 0]
     /\ wat = [w \in Workers |-> 0] /\ wdel = [w \in Workers |-> FALSE]
     /\ wchk = [w \in Workers |-> -1] /\ wtag = [w \in Workers |-> ""]
-    /\ iopc = "idle" /\ iocur = FinalT /\ iochk = -1 /\ iotag = ""
+    /\ iopc = [a \in {IOW} \cup Workers |-> "idle"] /\ iocur = [a \in {IOW} \cup Workers |-> FinalT]
+    /\ iochk = [a \in {IOW} \cup Workers |-> -1] /\ iotag = [a \in {IOW} \cup Workers |-> ""]
     /\ spc = "wait" /\ snext = 1
     /\ upc = "call" /\ cpc = "idle"
     /\ ann = [t \in Threads |-> ""]
@@ -241,7 +244,8 @@ UserResult ==
 UserShutdown ==
     /\ upc = "shutdown"
     /\ \A w \in Workers : wpc[w] = "idle"
-    /\ iopc = "idle" /\ rq = <<>> /\ ioq = <<>> /\ spc = "end"
+    /\ \A a \in {IOW} \cup Workers : iopc[a] = "idle"
+    /\ rq = <<>> /\ ioq = <<>> /\ spc = "end"
     /\ Emit2([e |-> "DoneFlip", x |-> 0, done |-> IsDoneS(status), user |-> FALSE],
              [e |-> "ShutdownEnd", user |-> FALSE])
     /\ upc' = "end"
@@ -345,7 +349,7 @@ SubSubmit ==
                   /\ tnext' = tnext + 1 /\ gtok' = [gtok EXCEPT ![snext] = tnext]
                   /\ UNCHANGED <<rsem, tlow, trel>>
        ELSE rsem > 0 /\ rsem' = rsem - 1 /\ UNCHANGED win
-    /\ cnt' = cnt + 1 /\ UNCHANGED cntfin
+    /\ cnt' = (IF Single THEN cnt ELSE cnt + 1) /\ UNCHANGED cntfin
     /\ rq' = Append(rq, snext)
     /\ gst' = [gst EXCEPT ![snext] = "queued"]
     /\ snext' = snext + 1
@@ -354,8 +358,8 @@ SubSubmit ==
 \* counter.finalize(): the final task is submitted here if every range is already accounted for
 SubFinalize ==
     /\ spc = "submit" /\ snext > N
-    /\ cntfin' = TRUE /\ UNCHANGED cnt
-    /\ spc' = IF cnt = 0 THEN "subfinal" ELSE "tend"
+    /\ cntfin' = ~Single /\ UNCHANGED cnt
+    /\ spc' = IF cnt = 0 /\ ~Single THEN "subfinal" ELSE "tend"
     /\ Quiet
     /\ UNCHANGED <<coord, event, cleanup, locks, fs, rex, iox, win, dq, wk, iow, snext, us, ann, faults, seq>>
 \* [ExecSubmit io IORenameFileTask / CompleteDownloadNOOPTask]
@@ -453,9 +457,13 @@ WReadFault(w, retryable) ==
 \* "if not self._transfer_coordinator.done(): queue the write, else return"
 WHand(w) ==
     /\ wpc[w] = "hand"
-    /\ wpc' = [wpc EXCEPT ![w] = IF IsDoneS(status) THEN "cb" ELSE IF NS THEN "dlock" ELSE "iosubmit"]
+    /\ wpc' = [wpc EXCEPT ![w] = IF IsDoneS(status) THEN "cb" ELSE IF NS THEN "dlock"
+                                  ELSE IF Single THEN "inline" ELSE "iosubmit"]
+    /\ IF ~IsDoneS(status) /\ ~NS /\ Single
+       THEN iocur' = [iocur EXCEPT ![w] = WriteT(wcur[w])] /\ iopc' = [iopc EXCEPT ![w] = "check"]
+       ELSE UNCHANGED <<iocur, iopc>>
     /\ Quiet
-    /\ UNCHANGED <<coord, event, cleanup, locks, fs, rex, iox, cc, win, dq, wcur, wat, wdel, wchk, wtag, iow, sb, us, ann, faults, seq>>
+    /\ UNCHANGED <<coord, event, cleanup, locks, fs, rex, iox, cc, win, dq, wcur, wat, wdel, wchk, wtag, iochk, iotag, sb, us, ann, faults, seq>>
 \* [ExecSubmit io IOWriteTask] blocks while the io queue is full
 WIoSubmit(w) ==
     /\ wpc[w] = "iosubmit" /\ iosem > 0
@@ -477,13 +485,21 @@ WDeferLock(w) ==
 \* ... [ExecSubmit io IOStreamingWriteTask] and every write that is now contiguous is
 \* queued, in order, still under the lock (blocking while the io queue is full) ...
 WDeferFlush(w) ==
-    /\ wpc[w] = "flush" /\ dnext \in dpend /\ iosem > 0
+    /\ ~Single /\ wpc[w] = "flush" /\ dnext \in dpend /\ iosem > 0
     /\ iosem' = iosem - 1 /\ ioq' = Append(ioq, WriteT(dnext + 1))
     /\ ioinfl' = ioinfl + 1 /\ iofut' = iofut + 1
     /\ dpend' = dpend \ {dnext} /\ dnext' = dnext + 1 /\ UNCHANGED dlock
     /\ Emit(EvSubmit("io", ioinfl + 1))
     /\ UNCHANGED <<coord, event, cleanup, locks, fs, rex, cc, win, wk, iow, sb, us, ann, faults, seq>>
 \* ... then the lock is released
+\* (single-request mode: get_io_write_tasks_for_immediate_write returns the write tasks,
+\*  releases the lock, and the caller runs them inline)
+WDeferTakeInline(w) ==
+    /\ Single /\ wpc[w] = "flush" /\ dnext \in dpend
+    /\ dpend' = dpend \ {dnext} /\ dnext' = dnext + 1 /\ dlock' = ""
+    /\ iocur' = [iocur EXCEPT ![w] = WriteT(dnext + 1)] /\ iopc' = [iopc EXCEPT ![w] = "check"]
+    /\ wpc' = [wpc EXCEPT ![w] = "inline"] /\ Quiet
+    /\ UNCHANGED <<coord, event, cleanup, locks, fs, rex, iox, cc, win, wcur, wat, wdel, wchk, wtag, iochk, iotag, sb, us, ann, faults, seq>>
 WDeferUnlock(w) ==
     /\ wpc[w] = "flush" /\ dnext \notin dpend
     /\ dlock' = "" /\ UNCHANGED <<dnext, dpend>>
@@ -497,11 +513,17 @@ WExc(w) ==
     /\ UNCHANGED <<event, cleanup, locks, fs, rex, iox, cc, win, dq, wcur, wat, wdel, wchk, wtag, iow, sb, us, ann, faults, seq>>
 \* finally: the task's done callback decrements the counter ...
 WDecr(w) ==
-    /\ wpc[w] = "cb"
+    /\ ~Single /\ wpc[w] = "cb"
     /\ cnt' = cnt - 1 /\ UNCHANGED cntfin
     /\ wpc' = [wpc EXCEPT ![w] = IF cntfin /\ cnt = 1 THEN "subfinal" ELSE "tend"]
     /\ Quiet
     /\ UNCHANGED <<coord, event, cleanup, locks, fs, rex, iox, win, dq, wcur, wat, wdel, wchk, wtag, iow, sb, us, ann, faults, seq>>
+\* (single-request mode: the done callback IS the final task; it runs inline)
+WFinalInline(w) ==
+    /\ Single /\ wpc[w] = "cb"
+    /\ iocur' = [iocur EXCEPT ![w] = FinalT] /\ iopc' = [iopc EXCEPT ![w] = "check"]
+    /\ wpc' = [wpc EXCEPT ![w] = "inline"] /\ Quiet
+    /\ UNCHANGED <<coord, event, cleanup, locks, fs, rex, iox, cc, win, dq, wcur, wat, wdel, wchk, wtag, iochk, iotag, sb, us, ann, faults, seq>>
 \* ... [ExecSubmit io IORenameFileTask / CompleteDownloadNOOPTask] and the last one submits the final task
 WFinalSubmit(w) ==
     /\ wpc[w] = "subfinal" /\ iosem > 0
@@ -534,111 +556,127 @@ WRelease(w) ==
     /\ wpc' = [wpc EXCEPT ![w] = "idle"] /\ Quiet
     /\ UNCHANGED <<coord, event, cleanup, locks, fs, gst, rq, iox, cc, dq, wcur, wat, wdel, wchk, wtag, iow, sb, us, ann, faults, seq>>
 
-\* ---------------------------------------------------------------- io worker
+\* ---------------------------------------------------------------- io tasks
+\* An io task (IOWriteTask / IOStreamingWriteTask / the final IORenameFileTask or
+\* CompleteDownloadNOOPTask) is run by an *actor*: the io worker thread for the
+\* tasks queued on the io executor (ranged mode), or the request worker itself
+\* for the tasks a single-request download runs inline
+\* (ImmediatelyWriteIOGetObjectTask calls its write tasks, and the final task
+\* is the GetObject task's done callback).
+Actors == {IOW} \cup Workers
+SetPc(a, v) == iopc' = [iopc EXCEPT ![a] = v]
 \* [TaskBegin io]
 IOTake ==
-    /\ iopc = "idle" /\ ioq # <<>>
-    /\ ioq' = Tail(ioq) /\ iocur' = Head(ioq)
-    /\ iopc' = "check"
+    /\ iopc[IOW] = "idle" /\ ioq # <<>>
+    /\ ioq' = Tail(ioq) /\ iocur' = [iocur EXCEPT ![IOW] = Head(ioq)]
+    /\ SetPc(IOW, "check")
     /\ Emit([e |-> "IoTask", ph |-> "b", user |-> FALSE])
     /\ UNCHANGED <<coord, event, cleanup, locks, fs, rex, iosem, ioinfl, iofut, cc, win, dq, wk, iochk, iotag, sb, us, ann, faults, seq>>
-IOCheck ==
-    /\ iopc = "check"
-    /\ iopc' = IF IsDoneS(status) THEN (IF iocur.k = "final" THEN "fin" ELSE "tend")
-               ELSE IF iocur.k = "final" THEN (IF Dest = "path" THEN "close" ELSE "setres")
-               ELSE IF fopen \/ Dest # "path" THEN "wb" ELSE "open"
-    /\ iochk' = Now
+\* Task.__call__: skip _main if the transfer is done
+IOCheck(a) ==
+    /\ iopc[a] = "check"
+    /\ SetPc(a, IF IsDoneS(status) THEN (IF iocur[a].k = "final" THEN "fin" ELSE "tend")
+                ELSE IF iocur[a].k = "final" THEN (IF Dest = "path" THEN "close" ELSE "setres")
+                ELSE IF fopen \/ Dest # "path" THEN "wb" ELSE "open")
+    /\ iochk' = [iochk EXCEPT ![a] = Now]
     /\ Quiet
     /\ UNCHANGED <<coord, event, cleanup, locks, fs, rex, iox, cc, win, dq, wk, iocur, iotag, sb, us, ann, faults, seq>>
 \* [FsOpen] the deferred file is opened by the first write
-IOOpen ==
-    /\ iopc = "open"
+IOOpen(a) ==
+    /\ iopc[a] = "open"
     /\ temp' = TRUE /\ fopen' = TRUE
-    /\ Emit2(EvFs("open", iochk), EvSnap(dest, TRUE))
-    /\ iopc' = "wb"
+    /\ Emit2(EvFs("open", iochk[a]), EvSnap(dest, TRUE))
+    /\ SetPc(a, "wb")
     /\ UNCHANGED <<coord, event, cleanup, locks, dest, wr, rex, iox, cc, win, dq, wk, iocur, iochk, iotag, sb, us, ann, faults, seq>>
 \* [FsWriteBegin]
-IOWriteBegin ==
-    /\ iopc = "wb"
+IOWriteBegin(a) ==
+    /\ iopc[a] = "wb"
     /\ Emit([e |-> "DstWriteBegin", x |-> 0, len |-> 1, user |-> FALSE])
-    /\ iopc' = "we"
+    /\ SetPc(a, "we")
     /\ UNCHANGED <<coord, event, cleanup, locks, fs, rex, iox, cc, win, dq, wk, iocur, iochk, iotag, sb, us, ann, faults, seq>>
 \* [FsWriteEnd]
-IOWriteEnd(ok) ==
-    /\ iopc = "we"
-    /\ LET p == RangeStart(iocur.part) IN
+IOWriteEnd(a, ok) ==
+    /\ iopc[a] = "we"
+    /\ LET p == RangeStart(iocur[a].part) IN
        IF ok THEN /\ wr' = wr \cup {p} /\ UNCHANGED <<faults, iotag>>
                   /\ Emit([e |-> "DstWrite", x |-> 0, ok |-> TRUE, off |-> p, len |-> 1, src |-> p, user |-> FALSE])
-                  /\ iopc' = "tend"
+                  /\ SetPc(a, "tend")
        ELSE /\ faults < MaxFaults /\ faults' = faults + 1 /\ UNCHANGED wr
             /\ Emit2(EvFault("FSW"), [e |-> "DstWrite", x |-> 0, ok |-> FALSE, off |-> -1, len |-> 0, src |-> -1, user |-> FALSE])
-            /\ iopc' = "exc" /\ iotag' = "FSW"
+            /\ SetPc(a, "exc") /\ iotag' = [iotag EXCEPT ![a] = "FSW"]
     /\ UNCHANGED <<coord, event, cleanup, locks, temp, fopen, dest, rex, iox, cc, win, dq, wk, iocur, iochk, sb, us, ann, seq>>
 \* IORenameFileTask._main                                   [FsClose]
-IOClose ==
-    /\ iopc = "close"
-    /\ IF fopen THEN fopen' = FALSE /\ Emit(EvFs("close", iochk)) ELSE UNCHANGED fopen /\ Quiet
-    /\ iopc' = "renB"
+IOClose(a) ==
+    /\ iopc[a] = "close"
+    /\ IF fopen THEN fopen' = FALSE /\ Emit(EvFs("close", iochk[a])) ELSE UNCHANGED fopen /\ Quiet
+    /\ SetPc(a, "renB")
     /\ UNCHANGED <<coord, event, cleanup, locks, temp, dest, wr, rex, iox, cc, win, dq, wk, iocur, iochk, iotag, sb, us, ann, faults, seq>>
 \* [FsRenameBegin]
-IORenameBegin ==
-    /\ iopc = "renB"
-    /\ Emit(EvFs("rename", iochk))
-    /\ iopc' = "renE"
+IORenameBegin(a) ==
+    /\ iopc[a] = "renB"
+    /\ Emit(EvFs("rename", iochk[a]))
+    /\ SetPc(a, "renE")
     /\ UNCHANGED <<coord, event, cleanup, locks, fs, rex, iox, cc, win, dq, wk, iocur, iochk, iotag, sb, us, ann, faults, seq>>
 \* the rename fails (nothing was renamed)                    [FaultInjected fs_rename]
-IORenameFault ==
-    /\ iopc = "renB" /\ faults < MaxFaults
+IORenameFault(a) ==
+    /\ iopc[a] = "renB" /\ faults < MaxFaults
     /\ faults' = faults + 1
-    /\ Emit(EvFault("FSR")) /\ iopc' = "exc" /\ iotag' = "FSR"
+    /\ Emit(EvFault("FSR")) /\ SetPc(a, "exc") /\ iotag' = [iotag EXCEPT ![a] = "FSR"]
     /\ UNCHANGED <<coord, event, cleanup, locks, fs, rex, iox, cc, win, dq, wk, iocur, iochk, sb, us, ann, seq>>
 \* [FsRename] the temp file becomes the destination
-IORenameEnd ==
-    /\ iopc = "renE"
+IORenameEnd(a) ==
+    /\ iopc[a] = "renE"
     /\ temp /\ temp' = FALSE
     /\ dest' = IF wr = AllPos THEN "complete" ELSE "partial"
     /\ Emit(EvSnap(dest', FALSE))
-    /\ iopc' = "setres"
+    /\ SetPc(a, "setres")
     /\ UNCHANGED <<coord, event, cleanup, locks, fopen, wr, rex, iox, cc, win, dq, wk, iocur, iochk, iotag, sb, us, ann, faults, seq>>
 \* [SetResult] the final task sets the result (unconditionally)
-IOSetResult ==
-    /\ iopc = "setres"
+IOSetResult(a) ==
+    /\ iopc[a] = "setres"
     /\ status' = "success" /\ exc' = "none"
-    /\ iopc' = "fin" /\ Quiet
+    /\ SetPc(a, "fin") /\ Quiet
     /\ UNCHANGED <<event, cleanup, locks, fs, rex, iox, cc, win, dq, wk, iocur, iochk, iotag, sb, us, ann, faults, seq>>
 \* [SetExc]
-IOExc ==
-    /\ iopc = "exc"
-    /\ SetException(iotag)
-    /\ iopc' = IF iocur.k = "final" THEN "fin" ELSE "tend"
+IOExc(a) ==
+    /\ iopc[a] = "exc"
+    /\ SetException(iotag[a])
+    /\ SetPc(a, IF iocur[a].k = "final" THEN "fin" ELSE "tend")
     /\ Quiet
     /\ UNCHANGED <<event, cleanup, locks, fs, rex, iox, cc, win, dq, wk, iocur, iochk, iotag, sb, us, ann, faults, seq>>
 \* the final task announces done
-IOFin ==
-    /\ iopc = "fin"
-    /\ iopc' = "announce" /\ ann' = [ann EXCEPT ![IOW] = "begin"] /\ Quiet
+IOFin(a) ==
+    /\ iopc[a] = "fin"
+    /\ SetPc(a, "announce") /\ ann' = [ann EXCEPT ![a] = "begin"] /\ Quiet
     /\ UNCHANGED <<coord, event, cleanup, locks, fs, rex, iox, cc, win, dq, wk, iocur, iochk, iotag, sb, us, faults, seq>>
-IOAnnounced ==
-    /\ iopc = "announce" /\ ~Announcing(IOW)
-    /\ iopc' = "tend" /\ Quiet
+IOAnnounced(a) ==
+    /\ iopc[a] = "announce" /\ ~Announcing(a)
+    /\ SetPc(a, "tend") /\ Quiet
     /\ UNCHANGED <<coord, event, cleanup, locks, fs, rex, iox, cc, win, dq, wk, iocur, iochk, iotag, sb, us, ann, faults, seq>>
 \* [TaskEnd io]
 IOTaskEnd ==
-    /\ iopc = "tend"
+    /\ iopc[IOW] = "tend"
     /\ ioinfl' = ioinfl - 1
-    /\ iopc' = "finish"
+    /\ SetPc(IOW, "finish")
     /\ Emit([e |-> "IoTask", ph |-> "e", user |-> FALSE])
     /\ UNCHANGED <<coord, event, cleanup, locks, fs, rex, ioq, iosem, iofut, cc, win, dq, wk, iocur, iochk, iotag, sb, us, ann, faults, seq>>
 IOFinish ==
-    /\ iopc = "finish"
+    /\ iopc[IOW] = "finish"
     /\ iofut' = iofut - 1
-    /\ iopc' = "release" /\ Quiet
+    /\ SetPc(IOW, "release") /\ Quiet
     /\ UNCHANGED <<coord, event, cleanup, locks, fs, rex, ioq, iosem, ioinfl, cc, win, dq, wk, iocur, iochk, iotag, sb, us, ann, faults, seq>>
 IORelease ==
-    /\ iopc = "release"
+    /\ iopc[IOW] = "release"
     /\ iosem' = iosem + 1
-    /\ iopc' = "idle" /\ Quiet
+    /\ SetPc(IOW, "idle") /\ Quiet
     /\ UNCHANGED <<coord, event, cleanup, locks, fs, rex, ioq, ioinfl, iofut, cc, win, dq, wk, iocur, iochk, iotag, sb, us, ann, faults, seq>>
+\* an inline task returns to the request worker that called it
+IOInlineReturn(w) ==
+    /\ w \in Workers /\ iopc[w] = "tend" /\ wpc[w] = "inline"
+    /\ SetPc(w, "idle")
+    /\ wpc' = [wpc EXCEPT ![w] = IF iocur[w].k = "final" THEN "tend" ELSE "read"]
+    /\ Quiet
+    /\ UNCHANGED <<coord, event, cleanup, locks, fs, rex, iox, cc, win, dq, wcur, wat, wdel, wchk, wtag, iocur, iochk, iotag, sb, us, ann, faults, seq>>
 
 AnnNext(th) ==
     \/ AnnBegin(th) \/ AnnCleanups(th) \/ AnnClose(th) \/ AnnRemove(th)
@@ -653,12 +691,15 @@ WNext(w) ==
     \/ WTake(w) \/ WCheck(w) \/ WGetBegin(w) \/ WGetEnd(w, "ok") \/ WGetEnd(w, "fault")
     \/ WReadData(w) \/ WReadEOF(w) \/ WReadFault(w, TRUE) \/ WReadFault(w, FALSE)
     \/ WHand(w) \/ WIoSubmit(w) \/ WDeferLock(w) \/ WDeferFlush(w) \/ WDeferUnlock(w)
+    \/ WDeferTakeInline(w) \/ WFinalInline(w) \/ IOInlineReturn(w)
     \/ WExc(w) \/ WDecr(w) \/ WFinalSubmit(w)
     \/ WTaskEnd(w) \/ WFinish(w) \/ WRelease(w)
 IONext ==
-    \/ IOTake \/ IOCheck \/ IOOpen \/ IOWriteBegin \/ IOWriteEnd(TRUE) \/ IOWriteEnd(FALSE)
-    \/ IOClose \/ IORenameBegin \/ IORenameFault \/ IORenameEnd \/ IOSetResult \/ IOExc
-    \/ IOFin \/ IOAnnounced \/ IOTaskEnd \/ IOFinish \/ IORelease
+    \/ IOTake \/ IOTaskEnd \/ IOFinish \/ IORelease
+    \/ \E a \in Actors :
+          \/ IOCheck(a) \/ IOOpen(a) \/ IOWriteBegin(a) \/ IOWriteEnd(a, TRUE) \/ IOWriteEnd(a, FALSE)
+          \/ IOClose(a) \/ IORenameBegin(a) \/ IORenameFault(a) \/ IORenameEnd(a) \/ IOSetResult(a) \/ IOExc(a)
+          \/ IOFin(a) \/ IOAnnounced(a)
 Next ==
     \/ UserNext \/ CancelNext \/ SubNext \/ IONext
     \/ \E w \in Workers : WNext(w)
@@ -687,8 +728,9 @@ ClausesOK == FailingClauses = {}
 \* design-level facts about the modelled file system
 C06_M_DestOnlyOldOrComplete == dest \in {"old", "absent", "complete"}
 C06_M_NoTempAtDoneEvent == event => ~temp
-C06_M_RenameOnlyAfterAllWritten == (iopc = "renE") => (wr = AllPos)
+C06_M_RenameOnlyAfterAllWritten == \A a \in Actors : (iopc[a] = "renE") => (wr = AllPos)
 C17_M_DeferLockHeldByFlusher == (dlock # "") => (dlock \in Workers /\ wpc[dlock] = "flush")
+ASSUME Single => N = 1
 C02_M_SuccessMeansComplete == (status = "success") => (IF Dest = "path" THEN dest = "complete" ELSE wr = AllPos)
 \* a stream destination receives its writes in position order, each position queued once
 C16_M_QueuedInOrder ==
@@ -703,14 +745,15 @@ C12_RequestSlotsConserved ==
     ELSE rsem = RQ - Cardinality({i \in Parts : gst[i] \in {"queued", "running", "ended"}})
                    - Cardinality({w \in Workers : wpc[w] = "release"})
 C12_IoSlotsConserved ==
-    iosem = IOQ - Len(ioq) - (IF iopc \in {"idle"} THEN 0 ELSE 1)
+    iosem = IOQ - Len(ioq) - (IF iopc[IOW] \in {"idle"} THEN 0 ELSE 1)
 C11_M_IoQueueBounded == Len(ioq) <= IOQ
 C17_LocksHeldByAnnouncers ==
     /\ (cllock # "") => ann[cllock] \in {"clclose", "clremove"}
     /\ (cblock # "") => ann[cblock] \in {"cbb", "cbe"}
 \* the counter never goes negative and the final task is submitted at most once
 C04_M_FinalSubmittedOnce ==
-    Cardinality({i \in 1..Len(ioq) : ioq[i].k = "final"}) + (IF iopc # "idle" /\ iocur.k = "final" THEN 1 ELSE 0) <= 1
+    Cardinality({i \in 1..Len(ioq) : ioq[i].k = "final"})
+        + Cardinality({a \in Actors : iopc[a] # "idle" /\ iocur[a].k = "final"}) <= 1
 \* termination (C04)
 C04_ResultReturns == (upc = "result") ~> (upc # "result")
 C04_ShutdownReturns == (upc = "shutdown") ~> (upc = "end")
